@@ -430,3 +430,48 @@ def chosen_call_join(terms):
     for t in terms:
         _walk_terms(t, grab)
     return hit[0] if hit else None
+
+
+def split_on_choices(terms, fs, depth=0):
+    """Terms that contain a two-way choice - ("ite", c, x, y), min(a, b), max(a, b) - are one case per way: [(terms', facts')] with the choice replaced by what it
+    yields and the deciding comparison added to the facts (a choice the facts already decide yields one case)."""
+    from order import Order
+    found = []
+
+    def grab(x):
+        if not found and (tag(x) == "ite" or (tag(x) in ("min", "max") and len(x) == 3)):
+            found.append(x)
+        return None
+    for t in terms:
+        term_map(t, grab)
+    if not found or depth > 4:
+        return [(list(terms), set(fs))]
+    ch = found[0]
+    if tag(ch) == "ite":
+        c = as_lin(ch[1])
+        alts = [(ch[2], ("cmp", "Ge", c, const(0))), (ch[3], ("cmp", "Lt", c, const(0)))]
+    else:
+        a, b = ch[1], ch[2]
+        alts = [(a if tag(ch) == "min" else b, ("cmp", "Le", a, b)), (b if tag(ch) == "min" else a, ("cmp", "Gt", a, b))]
+    out = []
+    for val, fact in alts:
+        fs2 = set(fs) | set(implied_facts([(fact, ("eq", 1))]))
+        o = Order(fs)
+        x, y = fact[2], fact[3]
+        # the facts at hand may already exclude this way
+        if (fact[1] == "Lt" and o.le(y, x)) or (fact[1] == "Ge" and o.le(add(x, const(1)), y)) or (fact[1] == "Gt" and o.le(x, y)) or (fact[1] == "Le" and o.le(add(y, const(1)), x)):
+            continue
+        ts2 = [term_map(t, lambda z, ch=ch, val=val: val if z == ch else None) for t in terms]
+        out.extend(split_on_choices(ts2, fs2, depth + 1))
+    return out
+
+
+def rel_excludes(rel, v):
+    """does the relation of a discriminant fact - ("eq", d), ("ne", (d, ..)), ("in", (d, ..)) - rule the value v out"""
+    if rel[0] == "eq":
+        return rel[1] != v
+    if rel[0] == "ne":
+        return v in tuple(rel[1])
+    if rel[0] == "in":
+        return v not in tuple(rel[1])
+    return False
